@@ -54,10 +54,16 @@ HasUnwind(cf) == cf \in {2, 4}
 
 \* context of an invocation, as far as the denotation depends on it (DESIGN.md 2.4)
 CtxOf(f) == [A |-> f.A, lim |-> f.e, fam |-> f.af, vis |-> IF FullVis(f.cf) THEN 1 ELSE 0,
-             eol |-> cs.eol, ib |-> cs.ib, il |-> cs.il, ic |-> cs.ic]
+             eol |-> cs.eol, ib |-> cs.ib, il |-> cs.il, ic |-> cs.ic, dep |-> IF f.d >= 0 THEN f.d ELSE 0]
 PosCtx == [eol |-> cs.eol, ib |-> cs.ib, il |-> cs.il, ic |-> cs.ic]
 
 VisibleF(f) == Known(f.r) /\ (FullVis(f.cf) \/ Nodes[f.r].en = 1)
+
+\* limits attached through action family 4 (C18)
+Min2(a, b) == IF a <= b THEN a ELSE b
+FrameLim(f) == IF Known(f.r) /\ f.af = 4 THEN Nodes[f.r].lim \div 1000 ELSE 0
+FrameLimN(f) == Nodes[f.r].lim % 1000
+GuardedOpen == Cardinality({j \in 1..Len(stk) : FrameLim(stk[j]) = 1 /\ VisibleF(stk[j])})
 
 \* st: the operators of the open invocations, outermost first (the call site of the verdict)
 V(prop, idx, r, why, a, b) == [p |-> prop, case |-> cs.id, i |-> idx, r |-> r, why |-> why, a |-> a, b |-> b,
@@ -77,13 +83,18 @@ BoundV(ev, idx, r) == If(ev.e >= 0 /\ (ev.o < 0 \/ ev.o > ev.e \/ ev.e > Len(cs.
 
 Bump(c, key) == [c EXCEPT ![key] = @ + 1]
 
+\* The verdict log is capped: a defect that shows in every case would otherwise make every state carry (and TLC
+\* fingerprint) a log of tens of thousands of records.  Truncation is visible to the driver (Len = MaxV).
+MaxV == 300
+VCap(v) == IF Len(v) > MaxV THEN SubSeq(v, 1, MaxV) ELSE v
+
 -----------------------------------------------------------------------------
 (* case: a new run starts *)
 OnCase(ev, idx) ==
    /\ stk' = <<>>
    /\ cs' = ev
    /\ lastx' = NoLast
-   /\ verd' = verd \o If(stk # <<>>, V("C08", idx, 0, "run ended with open invocations", Len(stk), 0))
+   /\ verd' = VCap(verd \o If(stk # <<>>, V("C08", idx, 0, "run ended with open invocations", Len(stk), 0)))
    /\ cnt' = Bump(Bump(cnt, "cases"), "ev")
 
 (* en: a rule is asked to match *)
@@ -91,7 +102,14 @@ OnEnter(ev, idx) ==
    /\ stk' = Append(stk, [r |-> ev.r, A |-> ev.A, M |-> ev.M, b |-> ev.b, l |-> ev.l, c |-> ev.c, o |-> ev.o,
                           e |-> ev.e, mx |-> ev.o, ph |-> 0, na |-> 0, ni |-> 0, iv |-> -1, av |-> -1, af |-> ev.af, cf |-> ev.cf,
                           d |-> ev.d, s |-> ev.s])
-   /\ verd' = verd \o PosV(ev, idx, ev.r) \o BoundV(ev, idx, ev.r)
+   /\ verd' = VCap(verd \o PosV(ev, idx, ev.r) \o BoundV(ev, idx, ev.r)
+        \* C18: the depth counter is the number of open depth-guarded invocations
+        \o If(ev.d >= 0 /\ ev.d # GuardedOpen, V("C18", idx, ev.r, "depth counter differs from the number of open guarded rules", ev.d, GuardedOpen))
+        \* C18: a byte-limited rule (and everything it calls) sees at most N bytes from where its match started
+        \o If(stk # <<>> /\ FrameLim(Top) = 2 /\ ev.e # Min2(Top.e, Top.o + FrameLimN(Top)),
+              V("C18", idx, Top.r, "byte-limited rule does not see exactly min(end, start + N)", ev.e, <<Top.o, Top.e, FrameLimN(Top)>>))
+        \o If(stk # <<>> /\ FrameLim(Top) # 2 /\ ev.e # Top.e /\ OpOf(Top.r) \notin {"rematch", "minus", "opaque"},
+              V("C18", idx, Top.r, "logical end of the input changed without a byte limit", ev.e, Top.e)))
    /\ cnt' = Bump(Bump(cnt, "pos"), "ev")
    /\ UNCHANGED <<cs, lastx>>
 
@@ -99,7 +117,7 @@ OnEnter(ev, idx) ==
 HookPhase(k) == CASE k = "st" -> 1 [] k = "su" -> 3 [] k = "fa" -> 4 [] k = "uw" -> 5
 OnHook(ev, idx) ==
    IF stk = <<>> \/ Top.r # ev.r
-   THEN /\ verd' = Append(verd, V("C08", idx, ev.r, "hook for a rule that is not the innermost open invocation", ev.k, 0))
+   THEN /\ verd' = VCap(Append(verd, V("C08", idx, ev.r, "hook for a rule that is not the innermost open invocation", ev.k, 0)))
         /\ cnt' = Bump(cnt, "ev")
         /\ UNCHANGED <<stk, cs, lastx>>
    ELSE LET f == Top
@@ -108,11 +126,11 @@ OnHook(ev, idx) ==
                          [] ev.k = "fa" -> f.ph \in {1, 2}
                          [] ev.k = "uw" -> f.ph \in {1, 2}
         IN /\ stk' = [stk EXCEPT ![Len(stk)] = [f EXCEPT !.ph = HookPhase(ev.k), !.mx = Max2(f.mx, ev.o)]]
-           /\ verd' = verd
+           /\ verd' = VCap(verd
                 \o If(~VisibleF(f), V("C08", idx, ev.r, "hook fired for a rule whose control is disabled", ev.k, 0))
                 \o If(~okphase, V("C08", idx, ev.r, "hook out of order", ev.k, f.ph))
                 \o If(ev.k = "st" /\ ev.o # f.o, V("C08", idx, ev.r, "start not at the position of the attempt", ev.o, f.o))
-                \o PosV(ev, idx, ev.r)
+                \o PosV(ev, idx, ev.r))
            /\ cnt' = Bump(Bump(cnt, "hook"), "ev")
            /\ UNCHANGED <<cs, lastx>>
 
@@ -122,19 +140,20 @@ OnRaise(ev, idx) ==
    LET f == IF stk = <<>> THEN [r |-> 0, o |-> 0] ELSE Top
        fromMust  == OpOf(f.r) = "must" /\ lastx.r = ev.r /\ lastx.v = 0 /\ lastx.lvl = Len(stk) + 1
        fromRaise == OpOf(f.r) = "raise"
-   IN /\ verd' = verd
-           \o If(~(fromMust \/ fromRaise), V("C08", idx, ev.r, "raise outside a must-context or raise rule", f.r, lastx.r))
+       fromLimit == stk # <<>> /\ FrameLim(Top) \in {1, 2}       \* limit_depth / limit_bytes raise for themselves
+   IN /\ verd' = VCap(verd
+           \o If(~(fromMust \/ fromRaise \/ fromLimit), V("C08", idx, ev.r, "raise outside a must-context or raise rule", f.r, lastx.r))
            \o If(fromMust /\ ~(lastx.o <= ev.o /\ ev.o <= lastx.mx),
                  V("C05", idx, ev.r, "raise position outside the failed attempt", ev.o, <<lastx.o, lastx.mx>>))
            \o If(fromRaise /\ ev.o # f.o, V("C05", idx, ev.r, "raise rule raised away from its position", ev.o, f.o))
-           \o PosV(ev, idx, ev.r)
+           \o PosV(ev, idx, ev.r))
       /\ cnt' = Bump(Bump(cnt, "raise"), "ev")
       /\ UNCHANGED <<stk, cs, lastx>>
 
 (* ap a0: the control dispatched an action (C04, C08) *)
 OnApply(ev, idx) ==
    IF stk = <<>> \/ Top.r # ev.r
-   THEN /\ verd' = Append(verd, V("C04", idx, ev.r, "action for a rule that is not the innermost open invocation", ev.k, 0))
+   THEN /\ verd' = VCap(Append(verd, V("C04", idx, ev.r, "action for a rule that is not the innermost open invocation", ev.k, 0)))
         /\ cnt' = Bump(cnt, "ev")
         /\ UNCHANGED <<stk, cs, lastx>>
    ELSE LET f == Top
@@ -142,7 +161,7 @@ OnApply(ev, idx) ==
             body == D!DenBody(f.r, f.o, CtxOf(f), DenFuel)
             wantsInput == ev.k = "ap"
         IN /\ stk' = [stk EXCEPT ![Len(stk)] = [f EXCEPT !.ph = 2, !.na = f.na + 1, !.av = ev.v]]
-           /\ verd' = verd
+           /\ verd' = VCap(verd
                 \o If(f.A # 1, V("C04", idx, ev.r, "action invoked while actions are disabled", 0, 0))
                 \o If(~VisibleF(f), V("C04", idx, ev.r, "action invoked for a rule hidden from the control", 0, 0))
                 \o If(ev.af # f.af, V("C13", idx, ev.r, "action family differs from the one in effect", ev.af, f.af))
@@ -155,14 +174,14 @@ OnApply(ev, idx) ==
                 \o If(body.k \in {"F", "X"} \/ (body.k = "T" /\ body.e # ev.io),
                       V("C04", idx, ev.r, "action invoked for a rule that did not just match this span", <<f.o, ev.io>>, body))
                 \o If(wantsInput /\ ev.s # f.s, V("C13", idx, ev.r, "action received a state other than the innermost one", ev.s, f.s))
-                \o (IF wantsInput THEN PosV(ev, idx, ev.r) ELSE <<>>)
+                \o (IF wantsInput THEN PosV(ev, idx, ev.r) ELSE <<>>))
            /\ cnt' = Bump(Bump(cnt, "act"), "ev")
            /\ UNCHANGED <<cs, lastx>>
 
 (* ia i0: an action listed in if_apply< R, As... > / apply< As... > / apply0< As... > ran (C04) *)
 OnIa(ev, idx) ==
    IF stk = <<>> \/ OpOf(Top.r) \notin {"if_apply", "apply", "apply0"}
-   THEN /\ verd' = Append(verd, V("C04", idx, 0, "listed action ran outside an if_apply/apply/apply0 rule", ev.n, 0))
+   THEN /\ verd' = VCap(Append(verd, V("C04", idx, 0, "listed action ran outside an if_apply/apply/apply0 rule", ev.n, 0)))
         /\ cnt' = Bump(cnt, "ev")
         /\ UNCHANGED <<stk, cs, lastx>>
    ELSE LET f == Top
@@ -172,7 +191,7 @@ OnIa(ev, idx) ==
             want0 == op = "apply0"
             kidT == IF op = "if_apply" THEN D!Den(Nodes[f.r].kids[1], f.o, CtxOf(f), DenFuel) ELSE D!RT(f.o)
         IN /\ stk' = [stk EXCEPT ![Len(stk)] = [f EXCEPT !.ni = k, !.iv = ev.v]]
-           /\ verd' = verd
+           /\ verd' = VCap(verd
                 \o If(f.A # 1, V("C04", idx, f.r, "listed action invoked while actions are disabled", ev.n, 0))
                 \o If((ev.k = "i0") # want0, V("C04", idx, f.r, "apply called where apply0 is listed or vice versa", ev.k, op))
                 \o If(2 * k > Len(pp) \/ (2 * k <= Len(pp) /\ pp[2*k] # ev.n), V("C04", idx, f.r, "listed actions called out of order or too often", ev.n, k))
@@ -180,13 +199,13 @@ OnIa(ev, idx) ==
                 \o If(ev.k = "ia" /\ ev.o # f.o, V("C04", idx, f.r, "action input does not begin where the match began", ev.o, f.o))
                 \o If(ev.k = "ia" /\ kidT.k = "T" /\ ev.eo # kidT.e, V("C04", idx, f.r, "action input does not end where the match ended", ev.eo, kidT.e))
                 \o If(ev.k = "ia" /\ kidT.k \in {"F", "X"}, V("C04", idx, f.r, "listed action invoked although the rule did not match", ev.eo, kidT))
-                \o (IF ev.k = "ia" THEN PosV(ev, idx, f.r) ELSE <<>>)
+                \o (IF ev.k = "ia" THEN PosV(ev, idx, f.r) ELSE <<>>))
            /\ cnt' = Bump(Bump(cnt, "act"), "ev")
            /\ UNCHANGED <<cs, lastx>>
 
 -----------------------------------------------------------------------------
 (* comparison of an observed outcome with the denotation (C01, C09, C05, ...) *)
-XClassOf(who) == IF who > 0 \/ who \in {D!XActParseError, D!XDepth} THEN 1 ELSE IF who = D!XActForeign THEN 3 ELSE 0
+XClassOf(who) == IF who > 0 \/ who \in ({D!XActParseError} \cup D!XLimits) THEN 1 ELSE IF who = D!XActForeign THEN 3 ELSE 0
 
 DenV(f, idx, v, o, x) ==   \* v: 1 success, 0 failure, 2 exception of class x
    IF ~Known(f.r) THEN <<>> ELSE
@@ -200,7 +219,7 @@ DenV(f, idx, v, o, x) ==   \* v: 1 success, 0 failure, 2 exception of class x
 (* ex: the invocation returns *)
 OnExit(ev, idx) ==
    IF stk = <<>> \/ Top.r # ev.r
-   THEN /\ verd' = Append(verd, V("C08", idx, ev.r, "return of a rule that is not the innermost open invocation", 0, 0))
+   THEN /\ verd' = VCap(Append(verd, V("C08", idx, ev.r, "return of a rule that is not the innermost open invocation", 0, 0)))
         /\ cnt' = Bump(cnt, "ev")
         /\ UNCHANGED <<stk, cs, lastx>>
    ELSE LET f == Top
@@ -211,7 +230,7 @@ OnExit(ev, idx) ==
         IN /\ stk' = IF rest = <<>> THEN rest
                      ELSE LET par == rest[Len(rest)] IN [rest EXCEPT ![Len(rest)] = [par EXCEPT !.mx = Max2(par.mx, mx)]]
            /\ lastx' = [r |-> f.r, v |-> ev.v, o |-> f.o, mx |-> mx, lvl |-> Len(stk), x |-> 0]
-           /\ verd' = verd
+           /\ verd' = VCap(verd
                 \* C02
                 \o If(ev.v = 0 /\ f.M = 1 /\ moved,
                       V("C02", idx, f.r, "local failure under rewind_mode::required left the cursor moved", <<f.b, f.l, f.c, f.o>>, <<ev.b, ev.l, ev.c, ev.o>>))
@@ -237,7 +256,7 @@ OnExit(ev, idx) ==
                 \o If(ev.e # f.e, V("C18", idx, f.r, "logical end of the input not restored", f.e, ev.e))
                 \o If(ev.d # f.d, V("C18", idx, f.r, "depth counter not restored", f.d, ev.d))
                 \* C01 / C09 / ...
-                \o DenV(f, idx, ev.v, ev.o, 0)
+                \o DenV(f, idx, ev.v, ev.o, 0))
            /\ cnt' = [cnt EXCEPT !.ev = @ + 1, !.den = @ + 1, !.pos = @ + 1,
                                  !.req = @ + (IF ev.v = 0 /\ f.M = 1 THEN 1 ELSE 0),
                                  !.look = @ + (IF OpOf(f.r) \in {"at", "not_at"} THEN 1 ELSE 0)]
@@ -246,7 +265,7 @@ OnExit(ev, idx) ==
 (* xc: an exception passes through the invocation *)
 OnExc(ev, idx) ==
    IF stk = <<>> \/ Top.r # ev.r
-   THEN /\ verd' = Append(verd, V("C08", idx, ev.r, "unwinding of a rule that is not the innermost open invocation", 0, 0))
+   THEN /\ verd' = VCap(Append(verd, V("C08", idx, ev.r, "unwinding of a rule that is not the innermost open invocation", 0, 0)))
         /\ cnt' = Bump(cnt, "ev")
         /\ UNCHANGED <<stk, cs, lastx>>
    ELSE LET f == Top
@@ -257,15 +276,17 @@ OnExc(ev, idx) ==
         IN /\ stk' = IF rest = <<>> THEN rest
                      ELSE LET par == rest[Len(rest)] IN [rest EXCEPT ![Len(rest)] = [par EXCEPT !.mx = Max2(par.mx, mx)]]
            /\ lastx' = [r |-> f.r, v |-> 2, o |-> f.o, mx |-> mx, lvl |-> Len(stk), x |-> ev.x]
-           /\ verd' = verd
-                \o If(~fuel /\ vis /\ HasUnwind(f.cf) /\ f.ph # 5,
+           /\ verd' = VCap(verd
+                \* (a limit action -- limit_depth, limit_bytes, check_bytes -- raises outside the rule's own attempt: before
+                \* start, or after success; then the protocol is already balanced and no unwind is due)
+                \o If(~fuel /\ vis /\ HasUnwind(f.cf) /\ f.ph # 5 /\ ~(FrameLim(f) # 0 /\ f.ph \in {0, 3}),
                       V("C08", idx, f.r, IF f.ph = 2 /\ f.av = 3 THEN "exception thrown by the action: no unwind hook" ELSE "exception passed through without an unwind hook", f.ph, 0))
-                \o If(~fuel /\ vis /\ ~HasUnwind(f.cf) /\ f.ph \notin {1, 2},
+                \o If(~fuel /\ vis /\ ~HasUnwind(f.cf) /\ f.ph \notin {1, 2} /\ ~(FrameLim(f) # 0 /\ f.ph \in {0, 3}),
                       V("C08", idx, f.r, "exception passed through after an end hook", f.ph, 0))
                 \o If(~fuel /\ ~vis /\ f.ph # 0, V("C08", idx, f.r, "hooks fired for a disabled rule", f.ph, 0))
                 \o If(ev.e # f.e, V("C18", idx, f.r, "logical end of the input not restored", f.e, ev.e))
                 \o If(ev.d # f.d, V("C18", idx, f.r, "depth counter not restored", f.d, ev.d))
-                \o (IF fuel THEN <<>> ELSE DenV(f, idx, 2, ev.o, ev.x))
+                \o (IF fuel THEN <<>> ELSE DenV(f, idx, 2, ev.o, ev.x)))
            /\ cnt' = [cnt EXCEPT !.ev = @ + 1, !.xcs = @ + 1, !.fuel = @ + (IF fuel THEN 1 ELSE 0)]
            /\ UNCHANGED cs
 
@@ -274,13 +295,15 @@ OnExc(ev, idx) ==
 MsgOf(who, m) ==
    IF who = D!XActParseError THEN "action veto"
    ELSE IF who = D!XDepth THEN "maximum parser rule nesting depth exceeded"
+   ELSE IF who = D!XBytes THEN "maximum allowed rule consumption reached"
+   ELSE IF who = D!XCheck THEN "maximum allowed rule consumption exceeded"
    ELSE IF who < 1 THEN ""
    ELSE IF m = 1 THEN (IF Nodes[who].thas = 1 THEN Nodes[who].tmsg ELSE "parse error matching " \o Nodes[who].s)   \* raise< T >: Control< T >::raise
    ELSE IF Nodes[who].hasmsg = 1 THEN Nodes[who].emsg
    ELSE "parse error matching " \o Nodes[who].dn
 
 TopCtx == [A |-> cs.A, lim |-> Len(cs.w), fam |-> cs.af, vis |-> IF FullVis(cs.cf) THEN 1 ELSE 0,
-           eol |-> cs.eol, ib |-> cs.ib, il |-> cs.il, ic |-> cs.ic]
+           eol |-> cs.eol, ib |-> cs.ib, il |-> cs.il, ic |-> cs.ic, dep |-> 0]
 
 OnEnd(ev, idx) ==
    LET d == IF Known(cs.g) THEN D!Den(cs.g, 0, TopCtx, DenFuel) ELSE D!RO
@@ -291,29 +314,30 @@ OnEnd(ev, idx) ==
                   [] d.k = "X" -> ev.v = 2 /\ ev.x = XClassOf(d.who)
                   [] OTHER -> TRUE
        perr == ev.v = 2 /\ ev.x = 1
-   IN /\ verd' = verd
+   IN /\ verd' = VCap(verd
            \o If(stk # <<>>, V("C08", idx, 0, "run ended with open invocations", Len(stk), 0))
            \o If(~skip /\ ~agree, V(PropOfRule(cs.g), idx, cs.g, "result of the run differs from the denotation", <<ev.v, ev.o, ev.x>>, d))
            \o If(~skip /\ agree /\ perr /\ d.k = "X" /\ ev.msg # MsgOf(d.who, d.m),
                  V("C05", idx, d.who, "parse_error does not name the first failing must/raise rule", ev.msg, MsgOf(d.who, d.m)))
            \o If(~skip /\ agree /\ perr /\ d.k = "X" /\ ev.nested # d.n,
                  V("C05", idx, d.who, "nesting of the exception differs", ev.nested, d.n))
-           \o If(perr /\ (ev.pl # D!PosLine(ev.pb - cs.ib, PosCtx) \/ ev.pc # D!PosCol(ev.pb - cs.ib, PosCtx)) /\ ev.pb - cs.ib >= 0 /\ ev.pb - cs.ib <= Len(cs.w),
+           \o If(perr /\ ev.pb - cs.ib >= 0 /\ ev.pb - cs.ib <= Len(cs.w) /\ (ev.pl # D!PosLine(ev.pb - cs.ib, PosCtx) \/ ev.pc # D!PosCol(ev.pb - cs.ib, PosCtx)),
                  V("C05", idx, 0, "line/column of the error position inconsistent with its byte", <<ev.pb, ev.pl, ev.pc>>, 0))
            \o If(perr /\ ev.what # (ev.src \o ":" \o ToString(ev.pl) \o ":" \o ToString(ev.pc) \o ": " \o ev.msg),
                  V("C05", idx, 0, "what() is not source:line:column: message", ev.what, 0))
            \o If(~skip /\ agree /\ perr /\ d.k = "X" /\ d.who > 0 /\ d.n = 0 /\ ~(d.at <= ev.pb - cs.ib),
                  V("C05", idx, d.who, "error position before the start of the failed attempt", ev.pb, d.at))
+           \o If(perr /\ (ev.pb - cs.ib < 0 \/ ev.pb - cs.ib > Len(cs.w)), V("C05", idx, 0, "error position outside the input", ev.pb, Len(cs.w)))
            \o PosV(ev, idx, 0) \o BoundV(ev, idx, 0)
            \o If(ev.d >= 0 /\ ev.d # 0, V("C18", idx, 0, "depth counter not back to its initial value", ev.d, 0))
-           \o If(ev.e >= 0 /\ ev.e # Len(cs.w), V("C18", idx, 0, "end of the input not restored", ev.e, Len(cs.w)))
+           \o If(ev.e >= 0 /\ ev.e # Len(cs.w), V("C18", idx, 0, "end of the input not restored", ev.e, Len(cs.w))))
       /\ stk' = <<>>
       /\ lastx' = NoLast
       /\ cnt' = [cnt EXCEPT !.ev = @ + 1, !.ends = @ + 1, !.fuel = @ + (IF fuel THEN 1 ELSE 0)]
       /\ UNCHANGED cs
 
 OnOther(ev, idx) ==
-   /\ verd' = IF ev.k = "crash" THEN Append(verd, V("C03", idx, 0, "harness process crashed (signal or terminate)", ev.why, 0)) ELSE verd
+   /\ verd' = VCap(IF ev.k = "crash" THEN Append(verd, V("C03", idx, 0, "harness process crashed (signal or terminate)", ev.why, 0)) ELSE verd)
    /\ cnt' = Bump(cnt, "ev")
    /\ UNCHANGED <<stk, cs, lastx>>
 
